@@ -256,6 +256,9 @@ func sendVersionMutations(ch chan []byte, uuid, dataID dvid.UUID) (numMutations 
 
 // sends JSON mutation records from the UUIDs (in descending DAG order) down channel.
 func sendMutations(ch chan []byte, dataID dvid.UUID, sequence []dvid.UUID) error {
+	// The receiver ranges over the channel: it is closed however this function returns.
+	defer close(ch)
+
 	if tc.Mutations.Jsonstore == "" {
 		return fmt.Errorf("no jsonstore configured in [mutations] section of TOML config")
 	}
@@ -268,7 +271,6 @@ func sendMutations(ch chan []byte, dataID dvid.UUID, sequence []dvid.UUID) error
 		}
 		numMutations += num
 	}
-	close(ch)
 
 	dvid.Infof("Read %d JSON mutations for data %s\n", numMutations, dataID)
 	return nil
